@@ -79,8 +79,16 @@ class Hist:
             self.after_collect(before, exact=True)
         elif letter == 'gcroots':
             before = set(M.b._succ)
-            roots = [abs(u) for u in self.recent[-2:]]
+            # the roots are references as the operations returned them (complemented ones
+            # included), some still referenced, some not
+            roots = list(self.recent[-3:])
             M.op('gc', roots)
+            if not M.s.ok():
+                self.ctx.violation('C06:rooted-collection-rejected',
+                                   f'collect_garbage({roots}) raised for references of the manager',
+                                   M.case())
+                self.ok = False
+                return
             self.after_collect(before, exact=False)
         elif letter == 'swap':
             before = set(M.b._succ)
